@@ -25,7 +25,9 @@
 EXTENDS Naturals, Sequences, FiniteSets, TLC
 
 \* "okB": the service vouches for the user with ANOTHER group list (its answer changed since an earlier request)
-PluginKinds == {"disabled", "unsupported", "ok", "okB", "user404", "groups404", "unreachable", "badjson"}
+\* "user500": the service answers the user lookup with an error status other than 404 (500) and the group lookup normally;
+\* "all403": it answers both lookups with 403 and a JSON error body.  Neither is the service vouching for the user.
+PluginKinds == {"disabled", "unsupported", "ok", "okB", "user404", "groups404", "unreachable", "badjson", "user500", "all403"}
 VouchKinds == {"ok", "okB"}
 EnabledKinds == PluginKinds \ {"disabled", "unsupported"}
 
